@@ -72,7 +72,7 @@ def convex2(v):
 
 
 SPECS = ("plain", "bounded", "fd2", "fd3", "scaler", "restart", "update", "raises", "print",
-         "ownbuf")
+         "ownbuf", "restartnow")
 
 
 class Boom(Exception):
@@ -153,7 +153,7 @@ def make_call(spec, v, point=None, log=None, logger=None, iprint=None, nested=No
         p = convex3(v)
         args = dict(x0=ro(p.x0), fun=wrapf(p.f), jac="3-point", bounds=ro(p.bounds),
                     finite_diff_rel_step=1e-5, **kw)
-    elif spec == "restart":
+    elif spec in ("restart", "restartnow"):
         p = convex3(v)
         ck = minimize_lbfgsb(x0=p.x0.copy(), fun=p.f, jac=p.g, bounds=p.bounds.copy(),
                              **dict(kw, maxiter=3))
@@ -163,6 +163,10 @@ def make_call(spec, v, point=None, log=None, logger=None, iprint=None, nested=No
         ck.hess_inv = LbfgsInvHessProduct(ro(ck.hess_inv.sk), ro(ck.hess_inv.yk))
         args = dict(x0=ck.x, fun=wrapf(p.f), jac=wrap(p.g), bounds=ro(p.bounds), checkpoint=ck,
                     gradient_scaler=(lambda *a: 0.37), **kw)
+        if spec == "restartnow":
+            # the target is already met by the checkpoint: the call returns at once
+            del args["gradient_scaler"]
+            args["ftarget"] = float(ck.fun) + 1.0
     elif spec == "ownbuf":
         # linear term whose coefficient array belongs to the caller and is what the
         # gradient callable returns at x0 (x0 = 0 of a QP: g = c); constant scaler 2.0
@@ -216,8 +220,9 @@ def make_call(spec, v, point=None, log=None, logger=None, iprint=None, nested=No
 def H_same(a, b):
     from lbv import hist as H
     bad = H.same_state(a, b)
-    if str(a.message) != str(b.message):
-        bad.append("message")
+    for k in ("message", "status", "success"):
+        if str(a.get(k)) != str(b.get(k)):
+            bad.append(k)
     return bad
 
 
